@@ -62,7 +62,7 @@ PAGE_SCALARS = {
 }
 FIGURE_SCALARS = {"fig_align": (["left", "center", "right"], ["middle", "Left", "c"]),
                   "fig_pos": (["before", "after"], ["top", "After", ""])}
-DOC_RULES = ("group_by_missing", "page_by_missing", "subline_by_missing", "new_page_without_page_by",
+DOC_RULES = ("group_by_missing", "page_by_missing", "subline_by_missing", "multi_section_column_missing", "new_page_without_page_by",
              "df_and_figure", "neither_df_nor_figure", "multi_body_not_list", "multi_length_mismatch",
              "multi_nested_header_mismatch", "figure_missing_file", "margin_length")
 
@@ -123,7 +123,7 @@ def enumerate_cases(tier):
             yield {"cls": "RTFFigure", "field": field, "kind": "figure", "form": "scalar", "shape": [1, 1],
                    "pos": [0, 0], "bad": bad, "fill": [legal[0]]}
     for rule in DOC_RULES:
-        for variant in range(4):
+        for variant in range(8 if rule in ("multi_section_column_missing", "margin_length") else 4):
             yield {"cls": "RTFDocument", "field": rule, "kind": "doc", "form": "rule", "shape": [1, 1],
                    "pos": [variant, 0], "bad": None, "fill": []}
 
@@ -217,6 +217,18 @@ def doc_rule(rule, variant, bad: bool):
         val = {0: missing, 1: [missing], 2: [good_cols[1], missing], 3: [missing, good_cols[1]]}[variant % 4] if bad else \
             {0: "a", 1: ["a"], 2: ["c", "a"], 3: ["a", "c"]}[variant % 4]
         return lambda: rtf.RTFDocument(df=df, rtf_body=rtf.RTFBody(**{key: val}))
+    if rule == "multi_section_column_missing":
+        # the column exists in one section's frame but not in another one's; the body may be one shared object
+        key = ("group_by", "page_by", "subline_by")[variant % 3]
+        shared = (variant // 3) % 2 == 0
+        other = pl.DataFrame({"x": ["x", "x", "y"], "b": [1, 2, 3]})
+        b1 = rtf.RTFBody(**{key: ["a"]})
+        b2 = b1 if shared else rtf.RTFBody(**{key: ["a"]})
+        frames = [df, other] if bad else [df, df.clone()]
+        if variant % 2 and bad:
+            frames = [df, df.clone(), other]
+            return lambda: rtf.RTFDocument(df=frames, rtf_body=[b1, b2, b1 if shared else rtf.RTFBody(**{key: ["a"]})])
+        return lambda: rtf.RTFDocument(df=frames, rtf_body=[b1, b2])
     if rule == "new_page_without_page_by":
         if bad:
             extra = [{}, {"group_by": ["a"]}, {"subline_by": ["a"]}, {"pageby_row": "first_row"}][variant % 4]
